@@ -73,8 +73,18 @@ pub enum MoveSpec {
     PromoN,
     NotInList,
     AlreadyYielded,
+    /// source and destination of a remaining promotion, but no promotion piece: not a move of the list
+    PromoSquaresNoPiece,
+    /// a remaining non-promotion move with a promotion piece attached: not a move of the list
+    PlainWithPiece,
+    /// the middle one of the moves still to come
+    Middle,
+    /// a castling move still to come
+    Castle,
+    /// the push of a pawn that can also capture en passant (two entries for one source)
+    PushOfEpPawn,
 }
-pub const ALL_MOVES: [MoveSpec; 9] = [
+pub const ALL_MOVES: [MoveSpec; 14] = [
     MoveSpec::First,
     MoveSpec::Last,
     MoveSpec::Ep,
@@ -84,6 +94,11 @@ pub const ALL_MOVES: [MoveSpec; 9] = [
     MoveSpec::PromoN,
     MoveSpec::NotInList,
     MoveSpec::AlreadyYielded,
+    MoveSpec::PromoSquaresNoPiece,
+    MoveSpec::PlainWithPiece,
+    MoveSpec::Middle,
+    MoveSpec::Castle,
+    MoveSpec::PushOfEpPawn,
 ];
 
 #[derive(Clone, Copy, Debug, PartialEq, Eq)]
@@ -209,6 +224,24 @@ fn move_value(spec: MoveSpec, ctx: &Ctx, model: &Model) -> Mv {
             Mv::new(0, 63, None)
         }
         MoveSpec::AlreadyYielded => model.yielded.first().copied().unwrap_or(Mv::new(1, 1, None)),
+        MoveSpec::PromoSquaresNoPiece => match model.remaining.iter().find(|m| m.promo.is_some()).copied() {
+            Some(m) => Mv::new(m.from, m.to, None),
+            None => Mv::new(8, 16, None),
+        },
+        MoveSpec::PlainWithPiece => match vis.iter().find(|m| m.promo.is_none()).copied() {
+            Some(m) => Mv::new(m.from, m.to, Some(Pc::Q)),
+            None => Mv::new(12, 28, Some(Pc::Q)),
+        },
+        MoveSpec::Middle => vis.get(vis.len() / 2).copied().unwrap_or(Mv::new(2, 2, None)),
+        MoveSpec::Castle => vis
+            .iter()
+            .find(|m| ctx.rp.at(m.from).map(|x| x.1) == Some(Pc::K) && (m.from % 8).abs_diff(m.to % 8) == 2)
+            .copied()
+            .unwrap_or(Mv::new(4, 6, None)),
+        MoveSpec::PushOfEpPawn => {
+            let ep_pawns: Vec<u8> = ctx.legal.iter().filter(|m| ctx.rp.at(m.from).map(|x| x.1) == Some(Pc::P) && Some(m.to) == ctx.rp.ep_square()).map(|m| m.from).collect();
+            vis.iter().find(|m| ep_pawns.contains(&m.from) && Some(m.to) != ctx.rp.ep_square()).copied().unwrap_or(Mv::new(3, 3, None))
+        }
     }
 }
 
@@ -376,7 +409,8 @@ fn execute_on<T: ExactSizeIterator<Item = ChessMove> + Clone>(ctx: &Ctx, script:
                     }
                     RemoveMoveSemantics::WholePromotionGroup => {
                         if x.promo.is_some() {
-                            model.remaining.retain(|y| !(y.from == x.from && y.to == x.to));
+                            // (a promotion piece on a plain move names no entry at all)
+                            model.remaining.retain(|y| !(y.from == x.from && y.to == x.to && y.promo.is_some()));
                         } else {
                             model.remaining.remove(&x);
                         }
@@ -602,8 +636,111 @@ fn parse_mutator(s: &str) -> Mutator {
     all_mutators().into_iter().find(|m| format!("{m:?}") == s).unwrap_or_else(|| machinery_failure("bad mutator"))
 }
 
+/// The third public constructor of the iterator, `Board::king_legals(colour)`: for the side to move
+/// it must yield exactly the king's legal moves (castling included); for either colour the size
+/// contract holds at every step, with and without a mask, and successive masks that cover the
+/// board yield every move exactly once.
+fn king_legals_case(fen: &str) -> (u64, Vec<Divergence>) {
+    set_case(|| json!({"property": "C10", "case": {"kind": "king-legals", "fen": fen}}).to_string());
+    let ctx = make_ctx(fen);
+    let mut d = vec![];
+    let mut steps = 0u64;
+    let r = std::panic::catch_unwind(std::panic::AssertUnwindSafe(|| {
+        let mut d = vec![];
+        let mut steps = 0u64;
+        for col in [Col::W, Col::B] {
+            let own = col == ctx.rp.turn;
+            let c = real_color(col);
+            // drains an iterator, checking the size contract before every step
+            let drain = |it: &mut dyn ExactSizeIterator<Item = ChessMove>, what: &str, d: &mut Vec<Divergence>| -> Vec<Mv> {
+                let mut out = vec![];
+                loop {
+                    let before = it.len();
+                    let sh = it.size_hint();
+                    if sh != (before, Some(before)) {
+                        d.push(Divergence::new("king_legals-size_hint-wrong", format!("{fen} king_legals({col:?}) {what}: size_hint {sh:?} but len {before}")));
+                    }
+                    match it.next() {
+                        Some(m) => {
+                            if before == 0 {
+                                d.push(Divergence::new("king_legals-len-wrong", format!("{fen} king_legals({col:?}) {what}: len() = 0 but a move was yielded")));
+                            }
+                            out.push(ref_mv(m));
+                            if it.len() + 1 != before && before != 0 {
+                                d.push(Divergence::new("king_legals-len-wrong", format!("{fen} king_legals({col:?}) {what}: len() went from {before} to {} over one step", it.len())));
+                            }
+                        }
+                        None => {
+                            if before != 0 {
+                                d.push(Divergence::new("king_legals-len-wrong", format!("{fen} king_legals({col:?}) {what}: len() = {before} but the iterator is exhausted")));
+                            }
+                            break;
+                        }
+                    }
+                    if out.len() > 64 {
+                        break;
+                    }
+                }
+                out
+            };
+            let mut it = ctx.board.king_legals(c);
+            let inherent = (it.len(), it.is_empty());
+            if inherent.1 != (inherent.0 == 0) || it.clone().count() != inherent.0 {
+                d.push(Divergence::new("king_legals-len-wrong", format!("{fen} king_legals({col:?}): len {} is_empty {} count {}", inherent.0, inherent.1, it.clone().count())));
+            }
+            let all = drain(&mut it, "unmasked", &mut d);
+            steps += all.len() as u64 + 1;
+            let set: BTreeSet<Mv> = all.iter().copied().collect();
+            if set.len() != all.len() {
+                d.push(Divergence::new("king_legals-yields-a-move-twice", format!("{fen} king_legals({col:?})")));
+            }
+            if own {
+                let ksq = (0..64u8).find(|&s| ctx.rp.at(s) == Some((col, Pc::K))).unwrap();
+                let want: BTreeSet<Mv> = ctx.legal.iter().copied().filter(|m| m.from == ksq).collect();
+                if set != want {
+                    d.push(Divergence::new(
+                        "king_legals-differs-from-the-kings-legal-moves",
+                        format!("{fen} king_legals({col:?}) yields {:?}, the king's legal moves are {:?}", set.iter().map(|m| m.uci()).collect::<Vec<_>>(), want.iter().map(|m| m.uci()).collect::<Vec<_>>()),
+                    ));
+                }
+            }
+            // successive masks covering the board: every move exactly once
+            for (m1, name) in [(occupancy(&ctx.rp, Some(col.flip())), "captures-then-rest"), (0x0f0f_0f0f_0f0f_0f0fu64, "left-then-right"), (0u64, "nothing-then-all")] {
+                let mut it = ctx.board.king_legals(c);
+                it.set_mask(BitBoard::from_u64(m1));
+                let first = drain(&mut it, name, &mut d);
+                if first.iter().any(|m| m1 & (1u64 << m.to) == 0) {
+                    d.push(Divergence::new("king_legals-yields-outside-mask", format!("{fen} king_legals({col:?}) {name}")));
+                }
+                it.set_mask(BitBoard::from_u64(!0));
+                let rest = drain(&mut it, name, &mut d);
+                steps += (first.len() + rest.len()) as u64 + 2;
+                let mut both: Vec<Mv> = first.iter().chain(rest.iter()).copied().collect();
+                both.sort();
+                let mut want: Vec<Mv> = all.clone();
+                want.sort();
+                if both != want {
+                    d.push(Divergence::new("king_legals-masks-do-not-partition", format!("{fen} king_legals({col:?}) {name}: {:?} then {:?}, unmasked {:?}", first.iter().map(|m| m.uci()).collect::<Vec<_>>(), rest.iter().map(|m| m.uci()).collect::<Vec<_>>(), all.iter().map(|m| m.uci()).collect::<Vec<_>>())));
+                }
+            }
+        }
+        (steps, d)
+    }));
+    match r {
+        Ok((n, dd)) => {
+            steps += n;
+            d.extend(dd);
+        }
+        Err(_) => d.push(Divergence::new("iterator-panics", format!("{fen} king_legals"))),
+    }
+    (steps, d)
+}
+
 pub fn replay_c10(case: &Value) -> Vec<Divergence> {
     silence_panics();
+    if case["kind"].as_str() == Some("king-legals") {
+        return king_legals_case(case["fen"].as_str().unwrap()).1;
+    }
     let script = Script {
         fen: case["fen"].as_str().unwrap().to_string(),
         entry: parse_mask(case["entry"].as_str().unwrap()),
@@ -634,6 +771,10 @@ pub fn run_c10(args: &Args) -> i32 {
                 report.record(d, || script_json(s));
             }
         }
+        let (ks, kd) = king_legals_case(fen);
+        total_steps += ks;
+        total_runs += 8;
+        report.record(&kd, || json!({"kind": "king-legals", "fen": fen}));
         total_runs += scripts.len() as u64;
         nontrivial_runs += scripts.iter().filter(|s| !s.steps.is_empty()).count() as u64;
         per_pos.push(json!({"fen": fen, "moves": ctx.legal.len(), "runs": scripts.len()}));
@@ -650,7 +791,7 @@ pub fn run_c10(args: &Args) -> i32 {
             "traces_validated_against_impl": total_runs,
             "evaluations": total_runs,
             "distinct_nontrivial": nontrivial_runs,
-            "rule": "for every catalogue position (both colours): each of 9 generation entry points (legals, legals_masked(m)) with 0 or 1 mutator at every point, legals_masked of every single square, of every all-but-one-square mask and of the castling destinations, and legals() with every ordered pair of mutators at every pair of points (thorough: every triple on positions with <= 12 moves); every run ends with a final set_mask(all) + drain when the mask is not already full; 32 mutator instances (set_mask x 11 masks, remove x 11 masks, remove_move x 9 move choices, clone-and-continue); every run is driven to exhaustion on the real MoveGen and len / is_empty / size_hint / ExactSizeIterator::len are compared with the set model after every step. states = iterator steps executed (each step is checked); non-trivial = runs containing at least one mutator.",
+            "rule": "for every catalogue position (both colours): each of 9 generation entry points (legals, legals_masked(m)) with 0 or 1 mutator at every point, legals_masked of every single square, of every all-but-one-square mask and of the castling destinations, and legals() with every ordered pair of mutators at every pair of points (thorough: every triple on positions with <= 12 moves); every run ends with a final set_mask(all) + drain when the mask is not already full; 37 mutator instances (set_mask x 11 masks, remove x 11 masks, remove_move x 14 move choices incl. non-members that share source and destination with a member, clone-and-continue); for every position also `king_legals(colour)` of both colours, unmasked and under three two-step mask covers (side to move: equal to the king's legal moves; either colour: size contract at every step, masks partition the unmasked yield); every run is driven to exhaustion on the real MoveGen and len / is_empty / size_hint / ExactSizeIterator::len are compared with the set model after every step. states = iterator steps executed (each step is checked); non-trivial = runs containing at least one mutator.",
             "positions": positions.len(),
             "mutator_instances": all_mutators().len(),
             "per_position": per_pos,
